@@ -64,7 +64,7 @@ class Sphere(Shape3D):
     @radius.setter
     def radius(self, value):
         if value > 0:
-            self._radius = value
+            self._radius = float(value)
         else:
             raise ValueError("Radius must be greater than zero.")
 
@@ -76,7 +76,7 @@ class Sphere(Shape3D):
     @diameter.setter
     def diameter(self, value):
         if value > 0:
-            self._radius = value / 2
+            self._radius = float(value) / 2
         else:
             raise ValueError("Diameter must be greater than zero.")
 
